@@ -105,7 +105,8 @@ Proof. exact blocker_is_higher. Qed.
    (guards: the shard map under the shard lock, the expiry buckets under the expiry-index lock, the accounting, the
    sketch and the doorkeeper under the policy mutex, the life-expectancy histogram under Metrics.mu); every access of
    the current source obeys it: writes - and reads of fields whose contents are written through them - hold the guard
-   exclusively, reads hold it at least shared, no guarded field is touched through sync/atomic. *)
+   exclusively, reads hold it at least shared, no guarded field is touched through sync/atomic; and the one field that is
+   shared without a mutex (sampledLFU.maxCost: UpdateMaxCost against Add / MaxCost) is only ever touched through sync/atomic. *)
 Theorem C08_lock_discipline : forallb access_ok lock_accesses = true.
 Proof. exact discipline_ok_now. Qed.
 
